@@ -7,7 +7,7 @@ CONSTANTS
   DevCreateStale = FALSE
   MaxDepth = 4
   RichAt = 0
-  Modes = {"k", "i", "u"}
+  Modes = {"k", "i"}
   FkModes = {0}
   FkCols <- FkColsA
   Seeds <- SeedsEmpty
